@@ -121,9 +121,10 @@ def gen_doc(rng, dup=False, max_paras=3):
                 out += "# free comment\n\n"
         names = rng.sample(NAMES, rng.randint(1, 4))
         if dup and rng.random() < 0.7:
-            names.insert(rng.randint(0, len(names)), rng.choice(names))
+            respell = lambda nm: rng.choice([nm, nm, nm.upper(), nm.lower(), nm.swapcase()])   # duplicates may differ in case
+            names.insert(rng.randint(0, len(names)), respell(rng.choice(names)))
             if rng.random() < 0.4:
-                names.insert(rng.randint(0, len(names)), names[0])
+                names.insert(rng.randint(0, len(names)), respell(names[0]))
         for nm in names:
             out += gen_field(rng, nm)
     if rng.random() < 0.35 and out.endswith("\n") and not out.endswith("\n\n"):
